@@ -286,6 +286,9 @@ def gen(rng, tier):
     fmts = ["fasta", "phylip", "nexus", "clustal"]
     for _ in range(12 if quick else 150):
         rows = nt_alignment(rng, 2, 8, 3, 130) if rng.random() < 0.7 else aa_alignment(rng)
+        if rng.random() < 0.5:
+            # residues that formats give a special meaning to: missing / other
+            rows = [(nm, "".join(rng.choice("?*") if rng.random() < 0.08 else ch for ch in sq)) for nm, sq in rows]
         k = rng.randint(2, 6)
         chain = [rng.choice(fmts)]
         while len(chain) < k:
